@@ -1,6 +1,16 @@
-"""C04 — see DESIGN.md section 5 "C04". Theorems: coq/Properties/C04.v (over Mseq); tie: T1 seq-diff (checks/seqcommon.py)."""
-from checks import seqcommon
+"""C04 — see DESIGN.md section 5 "C04". Theorems: coq/Properties/C04.v (over Mseq); ties: T1 seq-diff (checks/seqcommon.py) and, for
+the lease under races (an expiry racing an Unlock, a Renew or a session end must still end the hold), T2 layer 2 with the C05 scenario
+family and the model-independent oracle svtie.oracle_C04 on the real observations."""
+from checks import seqcommon, svcommon
+from lib import svtie
 
 
 def run(ctx):
-    seqcommon.run_seq_only(ctx, "C04")
+    if ctx.replay:
+        return svcommon.replay(ctx, "C04")
+    ok = ctx.coq_stage()
+    seqcommon.seq_stage(ctx, "C04")
+    svtie.run_property(ctx, "C04", scenarios=svtie.load_scenarios("C05"), corpus_props=["C04", "C05"])
+    ctx.assumptions += ["T2 layer 2 for C04: the scenarios of C05 (Unlock / Renew / expiry / session end racing on one hold), judged by 'a lease that fired ends its hold' on the real observations"]
+    if not ok and not ctx.violations:
+        ctx.coq_broken_violation()
